@@ -51,119 +51,37 @@ theorem flattenSpans_length (t : Traces) : (flattenSpans t).length = spanCountRe
 
 end Stef.Otlp
 
+
 namespace Stef.Otlp
 
-/-! ### content of the records (plain mode) -/
-
-def SEvent.nnz (e : SEvent) : Bool := e.attrs.nnz
-def SLink.nnz (l : SLink) : Bool := l.attrs.nnz
-
-def STRecord.nnz (r : STRecord) : Bool :=
-  r.resource.attrs.nnz && r.scope.attrs.nnz && r.span.attrs.nnz && r.span.evStore.all SEvent.nnz &&
-  r.span.lnStore.all SLink.nnz
-
-theorem nnz_empty_attrs : ({} : SAttrs).nnz = true := by simp [SAttrs.nnz, SKVs.nnz]
-
-theorem evEnsure_nnz : ∀ (n : Nat) (st : List SEvent), st.all SEvent.nnz = true → (evEnsure n st).all SEvent.nnz = true
-  | 0, st, h => by simpa [evEnsure] using h
-  | n + 1, [], _ => by
-    have := evEnsure_nnz n [] (by simp)
-    simp [evEnsure, SEvent.nnz, nnz_empty_attrs, this]
-  | n + 1, e :: t, h => by
-    simp only [List.all_cons, Bool.and_eq_true] at h
-    simp [evEnsure, h.1, evEnsure_nnz n t h.2]
-
-theorem evResetRange_nnz : ∀ (st : List SEvent) (lo c : Nat), st.all SEvent.nnz = true →
-    (evResetRange lo c st).all SEvent.nnz = true
-  | [], lo, c, _ => by cases lo <;> cases c <;> simp [evResetRange]
-  | e :: t, 0, 0, h => by simpa [evResetRange] using h
-  | e :: t, 0, c + 1, h => by
-    simp only [List.all_cons, Bool.and_eq_true] at h
-    have h1 : e.reset.nnz = true := by simpa [SEvent.nnz, SEvent.reset, SAttrs.nnz] using h.1
-    simp [evResetRange, h1, evResetRange_nnz t 0 c h.2]
-  | e :: t, lo + 1, c, h => by
-    simp only [List.all_cons, Bool.and_eq_true] at h
-    simp [evResetRange, h.1, evResetRange_nnz t lo c h.2]
-
-theorem evEnsureLen_nnz (st : List SEvent) (len n : Nat) (h : st.all SEvent.nnz = true) :
-    (evEnsureLen st len n).all SEvent.nnz = true :=
-  evResetRange_nnz _ _ _ (evEnsure_nnz n st h)
-
-theorem lnEnsure_nnz : ∀ (n : Nat) (st : List SLink), st.all SLink.nnz = true → (lnEnsure n st).all SLink.nnz = true
-  | 0, st, h => by simpa [lnEnsure] using h
-  | n + 1, [], _ => by
-    have := lnEnsure_nnz n [] (by simp)
-    simp [lnEnsure, SLink.nnz, nnz_empty_attrs, this]
-  | n + 1, e :: t, h => by
-    simp only [List.all_cons, Bool.and_eq_true] at h
-    simp [lnEnsure, h.1, lnEnsure_nnz n t h.2]
-
-theorem lnResetRange_nnz : ∀ (st : List SLink) (lo c : Nat), st.all SLink.nnz = true →
-    (lnResetRange lo c st).all SLink.nnz = true
-  | [], lo, c, _ => by cases lo <;> cases c <;> simp [lnResetRange]
-  | e :: t, 0, 0, h => by simpa [lnResetRange] using h
-  | e :: t, 0, c + 1, h => by
-    simp only [List.all_cons, Bool.and_eq_true] at h
-    have h1 : e.reset.nnz = true := by simpa [SLink.nnz, SLink.reset, SAttrs.nnz] using h.1
-    simp [lnResetRange, h1, lnResetRange_nnz t 0 c h.2]
-  | e :: t, lo + 1, c, h => by
-    simp only [List.all_cons, Bool.and_eq_true] at h
-    simp [lnResetRange, h.1, lnResetRange_nnz t lo c h.2]
-
-theorem lnEnsureLen_nnz (st : List SLink) (len n : Nat) (h : st.all SLink.nnz = true) :
-    (lnEnsureLen st len n).all SLink.nnz = true :=
-  lnResetRange_nnz _ _ _ (lnEnsure_nnz n st h)
+/-! ### content of the records (both modes): every record is exactly the expected record of its
+    span, for every batch - the converter overwrites every field and every revealed array element -/
 
 def eventRec (e : Event) : EventRec := { name := e.name, ts := e.ts, attrs := e.attrs, dropped := e.dropped }
 def linkRec (l : Link) : LinkRec :=
   { traceID := idText l.traceID, spanID := idText l.spanID, traceState := l.traceState, flags := l.flags, attrs := l.attrs,
     dropped := l.dropped }
 
-theorem clean_small_nnz {a : KVs} (h : a.clean = true) : a.small = true ∧ a.nnz = true := by
-  simp only [KVs.clean, Bool.and_eq_true] at h
-  exact ⟨h.1.2, h.2⟩
+theorem convEvent_spec (e : Event) (d : SEvent) : (convEvent e d).toRec = eventRec e := by
+  simp [convEvent, SEvent.toRec, eventRec, mapUnsorted_spec]
 
-theorem convEvent_spec (e : Event) (d : SEvent) (hc : e.clean = true) (hd : d.nnz = true) :
-    (convEvent e d).toRec = eventRec e ∧ (convEvent e d).nnz = true := by
-  have h := mapUnsorted_spec e.attrs d.attrs (clean_small_nnz hc).1 (clean_small_nnz hc).2 hd
-  simp [convEvent, SEvent.toRec, eventRec, SEvent.nnz, h.1, h.2]
+theorem convEvents_spec : ∀ (es : List Event) (st : List SEvent),
+    ((convEvents es st).take es.length).map SEvent.toRec = es.map eventRec
+  | [], st => by simp [convEvents]
+  | e :: es, d :: ds => by simp [convEvents, convEvent_spec e d, convEvents_spec es ds]
+  | e :: es, [] => by simp [convEvents, convEvent_spec e {}, convEvents_spec es []]
 
-theorem convEvents_spec : ∀ (es : List Event) (st : List SEvent), es.all Event.clean = true → st.all SEvent.nnz = true →
-    ((convEvents es st).take es.length).map SEvent.toRec = es.map eventRec ∧ (convEvents es st).all SEvent.nnz = true
-  | [], st, _, hs => by simp [convEvents, hs]
-  | e :: es, d :: ds, hc, hs => by
-    simp only [List.all_cons, Bool.and_eq_true] at hc hs
-    have h1 := convEvent_spec e d hc.1 hs.1
-    have h2 := convEvents_spec es ds hc.2 hs.2
-    simp [convEvents, h1.1, h1.2, h2.1, h2.2]
-  | e :: es, [], hc, _ => by
-    simp only [List.all_cons, Bool.and_eq_true] at hc
-    have h1 := convEvent_spec e {} hc.1 (by simp [SEvent.nnz, nnz_empty_attrs])
-    have h2 := convEvents_spec es [] hc.2 (by simp)
-    simp [convEvents, h1.1, h1.2, h2.1, h2.2]
+theorem convLink_spec (l : Link) (d : SLink) : (convLink l d).toRec = linkRec l := by
+  simp [convLink, SLink.toRec, linkRec, mapUnsorted_spec]
 
-theorem convLink_spec (l : Link) (d : SLink) (hc : l.clean = true) (hd : d.nnz = true) :
-    (convLink l d).toRec = linkRec l ∧ (convLink l d).nnz = true := by
-  simp only [Link.clean, Bool.and_eq_true] at hc
-  have h := mapUnsorted_spec l.attrs d.attrs (clean_small_nnz hc.1.1).1 (clean_small_nnz hc.1.1).2 hd
-  simp [convLink, SLink.toRec, linkRec, SLink.nnz, h.1, h.2]
+theorem convLinks_spec : ∀ (ls : List Link) (st : List SLink),
+    ((convLinks ls st).take ls.length).map SLink.toRec = ls.map linkRec
+  | [], st => by simp [convLinks]
+  | l :: ls, d :: ds => by simp [convLinks, convLink_spec l d, convLinks_spec ls ds]
+  | l :: ls, [] => by simp [convLinks, convLink_spec l {}, convLinks_spec ls []]
 
-theorem convLinks_spec : ∀ (ls : List Link) (st : List SLink), ls.all Link.clean = true → st.all SLink.nnz = true →
-    ((convLinks ls st).take ls.length).map SLink.toRec = ls.map linkRec ∧ (convLinks ls st).all SLink.nnz = true
-  | [], st, _, hs => by simp [convLinks, hs]
-  | l :: ls, d :: ds, hc, hs => by
-    simp only [List.all_cons, Bool.and_eq_true] at hc hs
-    have h1 := convLink_spec l d hc.1 hs.1
-    have h2 := convLinks_spec ls ds hc.2 hs.2
-    simp [convLinks, h1.1, h1.2, h2.1, h2.2]
-  | l :: ls, [], hc, _ => by
-    simp only [List.all_cons, Bool.and_eq_true] at hc
-    have h1 := convLink_spec l {} hc.1 (by simp [SLink.nnz, nnz_empty_attrs])
-    have h2 := convLinks_spec ls [] hc.2 (by simp)
-    simp [convLinks, h1.1, h1.2, h2.1, h2.2]
-
-/-- the record held after converting span `sp` into a record whose resource and scope parts show
-    `(r, s)` -/
+/-- the record held after converting span `sp` into a record whose resource and scope parts are
+    `res`, `sc` -/
 def recordOf (sorted : Bool) (res : STRes) (sc : STScope) (sp : Span) : SpanRecord :=
   { resURL := res.url, resAttrs := res.attrs.visible, resDropped := res.dropped,
     scName := sc.name, scVer := sc.ver, scURL := sc.url, scAttrs := sc.attrs.visible, scDropped := sc.dropped,
@@ -172,44 +90,27 @@ def recordOf (sorted : Bool) (res : STRes) (sc : STScope) (sp : Span) : SpanReco
     attrs := if sorted then sp.attrs.sortByKey else sp.attrs, dropped := sp.dropped, statusMsg := sp.statusMsg,
     statusCode := sp.statusCode, events := sp.events.map eventRec, links := sp.links.map linkRec }
 
-theorem convSpan_spec (sorted : Bool) (sp : Span) (cur : STRecord) (hc : sp.clean = true) (hn : cur.nnz = true) :
-    ({ cur with span := convSpan sorted sp cur.span } : STRecord).visible = recordOf sorted cur.resource cur.scope sp ∧
-    ({ cur with span := convSpan sorted sp cur.span } : STRecord).nnz = true := by
-  simp only [Span.clean, Bool.and_eq_true] at hc
-  simp only [STRecord.nnz, Bool.and_eq_true] at hn
-  have ha := mapUnsorted_spec sp.attrs cur.span.attrs (clean_small_nnz hc.1.1.1.1.1).1 (clean_small_nnz hc.1.1.1.1.1).2 hn.1.1.2
-  have hb := mapSorted_spec sp.attrs cur.span.attrs (clean_small_nnz hc.1.1.1.1.1).1 (clean_small_nnz hc.1.1.1.1.1).2 hn.1.1.2
-  have he := convEvents_spec sp.events (evEnsureLen cur.span.evStore cur.span.evLen sp.events.length) hc.1.2
-    (evEnsureLen_nnz _ _ _ hn.1.2)
-  have hl := convLinks_spec sp.links (lnEnsureLen cur.span.lnStore cur.span.lnLen sp.links.length) hc.2
-    (lnEnsureLen_nnz _ _ _ hn.2)
+theorem convSpan_spec (sorted : Bool) (sp : Span) (cur : STRecord) :
+    ({ cur with span := convSpan sorted sp cur.span } : STRecord).visible = recordOf sorted cur.resource cur.scope sp := by
+  have he := convEvents_spec sp.events (evEnsureLen cur.span.evStore cur.span.evLen sp.events.length)
+  have hl := convLinks_spec sp.links (lnEnsureLen cur.span.lnStore cur.span.lnLen sp.links.length)
   cases sorted
-  · constructor
-    · simp [STRecord.visible, recordOf, convSpan, ha.1, he.1, hl.1]
-    · simp [STRecord.nnz, convSpan, ha.2, he.2, hl.2, hn.1.1.1.1, hn.1.1.1.2]
-  · constructor
-    · simp [STRecord.visible, recordOf, convSpan, hb.1, he.1, hl.1]
-    · simp [STRecord.nnz, convSpan, hb.2, he.2, hl.2, hn.1.1.1.1, hn.1.1.1.2]
+  · simp [STRecord.visible, recordOf, convSpan, mapUnsorted_spec, he, hl]
+  · simp [STRecord.visible, recordOf, convSpan, mapSorted_spec, he, hl]
 
-theorem writeSpans_spec (sorted : Bool) : ∀ (ss : List Span) (st : TState), ss.all Span.clean = true → st.cur.nnz = true →
+theorem writeSpans_spec (sorted : Bool) : ∀ (ss : List Span) (st : TState),
     (writeSpans sorted ss st).out = (ss.map (recordOf sorted st.cur.resource st.cur.scope)).reverse ++ st.out ∧
-    (writeSpans sorted ss st).cur.nnz = true ∧
     (writeSpans sorted ss st).cur.resource = st.cur.resource ∧ (writeSpans sorted ss st).cur.scope = st.cur.scope
-  | [], st, _, hn => by simp [writeSpans, hn]
-  | s :: ss, st, hc, hn => by
-    simp only [List.all_cons, Bool.and_eq_true] at hc
-    have h1 := convSpan_spec sorted s st.cur hc.1 hn
+  | [], st => by simp [writeSpans]
+  | s :: ss, st => by
+    have h1 := convSpan_spec sorted s st.cur
     have h2 := writeSpans_spec sorted ss
       { cur := { st.cur with span := convSpan sorted s st.cur.span },
-        out := ({ st.cur with span := convSpan sorted s st.cur.span } : STRecord).visible :: st.out } hc.2 h1.2
+        out := ({ st.cur with span := convSpan sorted s st.cur.span } : STRecord).visible :: st.out }
     simp only [writeSpans]
-    refine ⟨?_, h2.2.1, h2.2.2.1, h2.2.2.2⟩
-    rw [h2.1, h1.1]
+    refine ⟨?_, h2.2.1, h2.2.2⟩
+    rw [h2.1, h1]
     simp
-
-end Stef.Otlp
-
-namespace Stef.Otlp
 
 /-- the resource part of the writer's record shows resource `r` -/
 def ShowsRes (res : STRes) (r : ResourceSpans) : Prop :=
@@ -224,58 +125,42 @@ theorem recordOf_eq_expected (sorted : Bool) {res : STRes} {r : ResourceSpans} (
   simp [recordOf, expectedRecord, h1, h2, h3, s1, s2, s3, s4, s5, eventRec, linkRec]
 
 theorem writeScopeSpans_spec (sorted : Bool) (r : ResourceSpans) : ∀ (l : List ScopeSpans) (st : TState),
-    l.all ScopeSpans.clean = true → st.cur.nnz = true → ShowsRes st.cur.resource r →
+    ShowsRes st.cur.resource r →
     (writeScopeSpans sorted l st).out
       = ((l.map fun s => s.spans.map fun sp => expectedRecord r s sp sorted).flatten).reverse ++ st.out ∧
-    (writeScopeSpans sorted l st).cur.nnz = true ∧ (writeScopeSpans sorted l st).cur.resource = st.cur.resource
-  | [], st, _, hn, _ => by simp [writeScopeSpans, hn]
-  | s :: l, st, hc, hn, hr => by
-    simp only [List.all_cons, Bool.and_eq_true, ScopeSpans.clean] at hc
-    simp only [STRecord.nnz, Bool.and_eq_true] at hn
-    have ha := mapUnsorted_spec s.attrs st.cur.scope.attrs (clean_small_nnz hc.1.1).1 (clean_small_nnz hc.1.1).2 hn.1.1.1.2
+    (writeScopeSpans sorted l st).cur.resource = st.cur.resource
+  | [], st, _ => by simp [writeScopeSpans]
+  | s :: l, st, hr => by
     let sc : STScope := { url := s.url, name := s.name, ver := s.ver,
                           attrs := SAttrs.mapUnsorted s.attrs st.cur.scope.attrs, dropped := s.dropped }
-    have hn' : ({ st.cur with scope := sc } : STRecord).nnz = true := by
-      simp [STRecord.nnz, sc, ha.2, hn.1.1.1.1, hn.1.1.2, hn.1.2, hn.2]
-    have h1 := writeSpans_spec sorted s.spans { st with cur := { st.cur with scope := sc } } hc.1.2 hn'
+    have h1 := writeSpans_spec sorted s.spans { st with cur := { st.cur with scope := sc } }
     have hr' : ShowsRes (writeSpans sorted s.spans { st with cur := { st.cur with scope := sc } }).cur.resource r := by
-      rw [h1.2.2.1]; exact hr
-    have h2 := writeScopeSpans_spec sorted r l _ hc.2 h1.2.1 hr'
+      rw [h1.2.1]; exact hr
+    have h2 := writeScopeSpans_spec sorted r l _ hr'
     simp only [writeScopeSpans]
-    refine ⟨?_, h2.2.1, ?_⟩
+    refine ⟨?_, ?_⟩
     · rw [h2.1, h1.1]
       have : (s.spans.map (recordOf sorted st.cur.resource sc)) = s.spans.map (fun sp => expectedRecord r s sp sorted) := by
         apply List.map_congr_left
         intro sp _
-        exact recordOf_eq_expected sorted hr sc s ⟨rfl, rfl, rfl, ha.1, rfl⟩ sp
+        exact recordOf_eq_expected sorted hr sc s ⟨rfl, rfl, rfl, mapUnsorted_spec _ _, rfl⟩ sp
       simp [this]
-    · rw [h2.2.2, h1.2.2.1]
+    · rw [h2.2, h1.2.1]
 
 theorem writeResourceSpans_spec (sorted : Bool) : ∀ (l : List ResourceSpans) (st : TState),
-    l.all ResourceSpans.clean = true → st.cur.nnz = true →
     (writeResourceSpans sorted l st).out
       = ((l.map fun r => (r.scopes.map fun s => s.spans.map fun sp => expectedRecord r s sp sorted).flatten).flatten).reverse
-        ++ st.out ∧
-    (writeResourceSpans sorted l st).cur.nnz = true
-  | [], st, _, hn => by simp [writeResourceSpans, hn]
-  | r :: l, st, hc, hn => by
-    simp only [List.all_cons, Bool.and_eq_true, ResourceSpans.clean] at hc
-    simp only [STRecord.nnz, Bool.and_eq_true] at hn
-    have ha := mapUnsorted_spec r.attrs st.cur.resource.attrs (clean_small_nnz hc.1.1).1 (clean_small_nnz hc.1.1).2
-      hn.1.1.1.1
+        ++ st.out
+  | [], st => by simp [writeResourceSpans]
+  | r :: l, st => by
     let res : STRes := { url := r.url, attrs := SAttrs.mapUnsorted r.attrs st.cur.resource.attrs, dropped := r.dropped }
-    have hn' : ({ st.cur with resource := res } : STRecord).nnz = true := by
-      simp [STRecord.nnz, res, ha.2, hn.1.1.1.2, hn.1.1.2, hn.1.2, hn.2]
-    have h1 := writeScopeSpans_spec sorted r r.scopes { st with cur := { st.cur with resource := res } } hc.1.2 hn'
-      ⟨rfl, ha.1, rfl⟩
-    have h2 := writeResourceSpans_spec sorted l _ hc.2 h1.2.1
+    have h1 := writeScopeSpans_spec sorted r r.scopes { st with cur := { st.cur with resource := res } }
+      ⟨rfl, mapUnsorted_spec _ _, rfl⟩
+    have h2 := writeResourceSpans_spec sorted l
+      (writeScopeSpans sorted r.scopes { st with cur := { st.cur with resource := res } })
     simp only [writeResourceSpans]
-    refine ⟨?_, h2.2⟩
-    rw [h2.1, h1.1]
+    rw [h2, h1.1]
     simp
-
-theorem init_nnz : ({} : TState).cur.nnz = true := by
-  simp [STRecord.nnz, SAttrs.nnz, SKVs.nnz]
 
 end Stef.Otlp
 
